@@ -23,7 +23,9 @@ if not ok:
     if not ok2:
         ck.violation("coq-model-broken", "Coq model of C13 does not compile (translator output or model)", {"log": out2[-3000:]}, no_input=True)
         ck.finish({"evaluations": 1, "distinct_nontrivial": 0, "rule": "n/a", "samples": ["model did not compile"]})
+ck.log("coq made")
 ok, out = ck.coq_props()
+ck.log("props checked")
 if not ok:
     broken.append(("Props/C13.v", out[-3000:]))
 
@@ -32,6 +34,7 @@ exe, out = ck.go_build("./cmd/hc13")
 if exe is None:
     ck.violation("harness-build", "harness does not build against the repository", {"log": out[-3000:]}, no_input=True)
     ck.finish({"evaluations": 1, "distinct_nontrivial": 0, "rule": "n/a", "samples": ["harness build failed"]})
+ck.log("harness built")
 work = ck.mkscratch()
 res = os.path.join(work, "out.json")
 if ck.thorough():
@@ -45,6 +48,7 @@ if rc != 0:
     ck.violation("harness-run", "harness run failed (panic in the solver or lattice code?): " + out[-600:], {"log": out[-4000:]}, no_input=True)
     ck.finish({"evaluations": 1, "distinct_nontrivial": 0, "rule": "n/a", "samples": ["harness run failed"]})
 data = json.load(open(res))
+ck.log("harness ran")
 
 # ---------------------------------------------------------------- Gallina literals
 def nat_list(l): return coq_list([str(x) for x in (l or [])])
@@ -107,7 +111,7 @@ def casefile(ty, mism, viol, items):
     return HDR + "Definition cases : list %s := %s.\n" % (ty, coq_list(["(" + x + ")" for x in items])) + \
         "Definition M := Eval vm_compute in %s cases.\nDefinition V := Eval vm_compute in %s cases.\nPrint M.\nPrint V.\n" % (mism, viol)
 
-SHARD = 90 if not ck.thorough() else 250
+SHARD = 300
 files, index = {}, {}
 def add(kind, ty, mism, viol, raw, conv):
     for s in range(0, len(raw), SHARD):
@@ -129,6 +133,7 @@ RAW = {"A": data["A"], "B": data["B"], "C": data["C"], "LM": lawsmap_ok, "LD": d
 
 results = ck.coq_cases_parallel(files, timeout=1500, jobs=12)
 
+ck.log("cases evaluated")
 WHAT = {"A": "dense solver, gen/kill bitsets", "B": "dense solver, constant propagation over dfa.MapLattice",
         "C": "dense solver, nilness lattice over dfa.DenseMapLattice", "LM": "dfa.MapLattice Merge/Equals",
         "LD": "dfa.DenseMapLattice Merge/Equals over the nilness lattice", "S": "sparse solver on a built ir.Function"}
